@@ -15,6 +15,7 @@ import (
 // ---------------------------------------------------------------------------------------------
 
 type Env struct {
+	havocked map[string]bool // keys havocked by the contract call whose ensures is being assumed
 	tr    *Translator
 	vars  map[string]Val
 	st    *State
@@ -642,6 +643,25 @@ func (e *Env) prelude(name string, n *ast.CallExpr, typeArgs []types.Type, rt ty
 			walk("F:"+shortType(pt), pt)
 		} else {
 			walk("P:"+shortType(pt), pt)
+		}
+		return Val{t: and(cs...), typ: B}
+	case "nothingModified":
+		var cs []Sx
+		keys := e.havocked
+		if keys == nil && len(tr.writeLog) > 0 {
+			keys = tr.writeLog[0]
+		}
+		for _, k := range sortedKeys(keys) {
+			if k == "$alloc" || k == "*" || strings.HasPrefix(k, "R:") {
+				continue
+			}
+			if _, ok := c.memSorts[k]; !ok {
+				continue
+			}
+			cur, old := tr.memGet(e.st, k), tr.memGet(e.old, k)
+			if cur != old {
+				cs = append(cs, eq(cur, old))
+			}
 		}
 		return Val{t: and(cs...), typ: B}
 	case "inClass":
